@@ -57,7 +57,28 @@ func f16types() []f16type {
 	return out
 }
 
+// every registered 9.xxx type must be in the table above
+func f16Uncovered() string {
+	have := map[string]bool{}
+	for _, ty := range f16types() {
+		have[ty.name] = true
+	}
+	for _, n := range ListSupportedTypes() {
+		if len(n) > 2 && n[:2] == "9." {
+			tn := "DPT_9" + n[2:]
+			if !have[tn] {
+				return tn
+			}
+		}
+	}
+	return ""
+}
+
 func TestKvcStandinC06F16(t *testing.T) {
+	if u := f16Uncovered(); u != "" {
+		fmt.Printf("KVC-STANDIN C06F16 FAIL registered type %s is not covered by this stand-in\n", u)
+		t.FailNow()
+	}
 	cases := 0
 	for _, ty := range f16types() {
 		for hi := 0; hi < 256; hi++ {
@@ -128,6 +149,10 @@ func codecCheck(f float32, prev *float32, havePrev *bool) string {
 }
 
 func TestKvcStandinC07F16(t *testing.T) {
+	if u := f16Uncovered(); u != "" {
+		fmt.Printf("KVC-STANDIN C07F16 FAIL registered type %s is not covered by this stand-in\n", u)
+		t.FailNow()
+	}
 	workers := runtime.NumCPU()
 	const total = uint64(1) << 32
 	chunk := total / uint64(workers)
